@@ -43,14 +43,15 @@ func (v *Val) clone() *Val {
 }
 
 func scalarVal(t *Type, s uint32) *Val { return &Val{T: t, S: s} }
-func boolVal(b bool) *Val {
+func b2u(b bool) uint32 {
 	if b {
-		return &Val{T: tBool, S: 1}
+		return 1
 	}
-	return &Val{T: tBool}
+	return 0
 }
+func boolVal(b bool) *Val { return &Val{T: tBool, S: b2u(b)} }
 
-func f32(s uint32) float32 { return math.Float32frombits(s) }
+func f32(s uint32) float32    { return math.Float32frombits(s) }
 func bitsOf(f float32) uint32 { return math.Float32bits(f) }
 
 // convert converts scalar v to scalar type t (value conversion, as a constructor does).
@@ -765,11 +766,21 @@ func (p *Program) eval(e *node) *Val {
 			}
 			return p.binary(e.s, a, p.eval(e.kids[1]))
 		}
+		if x, y, ok := remPattern(e); ok {
+			// x - (x / y) * y: by C/C++ [expr.mul] (a/b)*b + a%b == a whenever a/b is
+			// representable, so this is x % y and neither the product nor the difference can
+			// overflow (the solvers cannot establish that from the bit-level product)
+			return p.binary("%", p.eval(x), p.eval(y))
+		}
 		a := p.eval(e.kids[0])
 		b := p.eval(e.kids[1])
 		return p.binary(e.s, a, b)
 	case "assign":
 		cells := p.lvalue(e.kids[0])
+		if e.kids[1].k == "init" && e.s == "=" && len(cells) == 1 { // x = {}; / x = {a, b};
+			p.store(cells[0], p.initValue(cells[0].T, e.kids[1]))
+			return cellsValue(cells)
+		}
 		rhs := p.eval(e.kids[1])
 		if e.s != "=" {
 			rhs = p.binary(e.s[:len(e.s)-1], cellsValue(cells), rhs)
@@ -814,6 +825,29 @@ func (p *Program) eval(e *node) *Val {
 	}
 	p.rtFail("unsupported expression kind " + e.k)
 	return zero(tInt)
+}
+
+// sameSimple: both are the same plain name (no effects, no aliasing through calls).
+func sameSimple(a, b *node) bool {
+	return a.k == "id" && b.k == "id" && a.s == b.s
+}
+
+// remPattern recognises x - (x / y) * y and x - y * (x / y) over plain names.
+func remPattern(e *node) (x, y *node, ok bool) {
+	if e.k != "bin" || e.s != "-" {
+		return nil, nil, false
+	}
+	m := e.kids[1]
+	if m.k != "bin" || m.s != "*" {
+		return nil, nil, false
+	}
+	for k := 0; k < 2; k++ {
+		q, d := m.kids[k], m.kids[1-k]
+		if q.k == "bin" && q.s == "/" && sameSimple(q.kids[0], e.kids[0]) && sameSimple(q.kids[1], d) {
+			return e.kids[0], d, true
+		}
+	}
+	return nil, nil, false
 }
 
 // staticType gives the type of an lvalue-like expression without evaluating effects (used
